@@ -1,0 +1,149 @@
+//go:build verif
+
+package pubsub
+
+import (
+	"slices"
+
+	"github.com/anyproto/any-sync/net/streampool"
+)
+
+// This file exists only under the build tag `verif` (runtime-monitoring
+// harness). It exports read-only snapshots of the engine's serving-side
+// bookkeeping and a handle on the private pattern trie. No logic of its own.
+
+// VerifSnapshot returns the serving-side interest bookkeeping: the number of
+// per-space tries, the number of per-stream records, and for every space the
+// refcount of every live pattern in its trie.
+func VerifSnapshot(svc Service) (spaces, streams int, patterns map[string]map[string]int) {
+	s, ok := svc.(*service)
+	if !ok {
+		return 0, 0, nil
+	}
+	s.remoteMu.Lock()
+	defer s.remoteMu.Unlock()
+	patterns = make(map[string]map[string]int, len(s.remote))
+	for spaceId, si := range s.remote {
+		m := make(map[string]int)
+		verifWalk(si.trie.root, m, nil)
+		patterns[spaceId] = m
+	}
+	return len(s.remote), len(s.streams), patterns
+}
+
+// VerifStreamRecord is a copy of one per-stream interest record.
+type VerifStreamRecord struct {
+	StreamId uint32
+	Account  string
+	Total    int
+	BySpace  map[string][]string
+}
+
+// VerifStreamRecords returns a copy of every per-stream interest record, sorted by stream id.
+func VerifStreamRecords(svc Service) (out []VerifStreamRecord) {
+	s, ok := svc.(*service)
+	if !ok {
+		return nil
+	}
+	s.remoteMu.Lock()
+	defer s.remoteMu.Unlock()
+	for id, strm := range s.streams {
+		r := VerifStreamRecord{StreamId: id, Account: strm.account, Total: strm.total, BySpace: make(map[string][]string, len(strm.bySpace))}
+		for spaceId, pats := range strm.bySpace {
+			l := make([]string, 0, len(pats))
+			for p := range pats {
+				l = append(l, p)
+			}
+			slices.Sort(l)
+			r.BySpace[spaceId] = l
+		}
+		out = append(out, r)
+	}
+	slices.SortFunc(out, func(a, b VerifStreamRecord) int { return int(a.StreamId) - int(b.StreamId) })
+	return out
+}
+
+// VerifLocalSnapshot returns the client-side (local handler) bookkeeping: for
+// every space the number of handlers per pattern, and the trie size per space.
+func VerifLocalSnapshot(svc Service) (subs map[string]map[string]int, trieLen map[string]int) {
+	s, ok := svc.(*service)
+	if !ok {
+		return nil, nil
+	}
+	s.localMu.Lock()
+	defer s.localMu.Unlock()
+	subs = make(map[string]map[string]int, len(s.localSubs))
+	for spaceId, m := range s.localSubs {
+		c := make(map[string]int, len(m))
+		for p, hs := range m {
+			c[p] = len(hs)
+		}
+		subs[spaceId] = c
+	}
+	trieLen = make(map[string]int, len(s.localTrie))
+	for spaceId, t := range s.localTrie {
+		trieLen[spaceId] = t.Len()
+	}
+	return subs, trieLen
+}
+
+// VerifPool returns the engine's private stream pool (for streampool.VerifIndexSnapshot).
+func VerifPool(svc Service) streampool.StreamPool {
+	s, ok := svc.(*service)
+	if !ok {
+		return nil
+	}
+	return s.pool
+}
+
+// VerifTrieMatch builds a fresh trie holding the given patterns (one
+// reference each) and returns the patterns matching topic.
+func VerifTrieMatch(patterns []string, topic string) []string {
+	t := newPatternTrie()
+	for _, p := range patterns {
+		t.Add(p)
+	}
+	return t.Match(topic, nil)
+}
+
+// VerifTrie is a handle on a private pattern trie for add/remove sequences.
+type VerifTrie struct{ t *patternTrie }
+
+func VerifNewTrie() *VerifTrie                  { return &VerifTrie{t: newPatternTrie()} }
+func (v *VerifTrie) Add(pattern string) bool    { return v.t.Add(pattern) }
+func (v *VerifTrie) Remove(pattern string) bool { return v.t.Remove(pattern) }
+func (v *VerifTrie) Match(topic string) []string {
+	return v.t.Match(topic, nil)
+}
+func (v *VerifTrie) Len() int { return v.t.Len() }
+
+// Refs returns pattern -> refcount of every live pattern; nodes is the total
+// number of trie nodes still allocated (0 for an empty trie).
+func (v *VerifTrie) Refs() (refs map[string]int, nodes int) {
+	refs = make(map[string]int)
+	verifWalk(v.t.root, refs, &nodes)
+	return refs, nodes
+}
+
+func verifWalk(l *trieLevel, refs map[string]int, nodes *int) {
+	if l == nil {
+		return
+	}
+	visit := func(n *trieNode) {
+		if n == nil {
+			return
+		}
+		if nodes != nil {
+			*nodes++
+		}
+		if n.refs > 0 {
+			refs[n.pattern] = n.refs
+		}
+		verifWalk(n.next, refs, nodes)
+	}
+	for _, n := range l.nodes {
+		visit(n)
+	}
+	visit(l.pwc)
+	visit(l.fwc)
+}
